@@ -19,7 +19,8 @@ META = {
         'order (antisymmetric, None-suffix first, zero-padded, ints); (D3) __hash__ is computed from a '
         'padding-insensitive form; (D4) nearest() returns only members of OFFICIAL_VERSIONS, equal first, '
         'scanning in descending order.  Also (D2): identity tests (`is`) between non-singleton inputs are refused by the decision table (the outcome depends on interning); the skeleton may bind locals to case/strip transforms and the suffix representatives include mixed case; (D3) an unrecognised __hash__ body is evaluated by a small interpreter on representatives of the zero-padding classes.  Not decided: transitivity/monotonicity as quantified statements '
-        'over triples (they follow from D1+D2 for a lexicographic comparison; that step is not mechanised).'),
+        'over triples (they follow from D1+D2 for a lexicographic comparison; that step is not mechanised).'
+        ' Also (D2): each operand of _cmp is padded by its OWN length.'),
     'rule_text': 'obligations = operator thresholds (6), _cmp decision-table cells (3 numeric orderings x 9 suffix '
                  'pairs), padding/int/coercion facts, hash form, nearest() returns and scan order',
     'trusted_base': ['lexicographic lift: a for-loop over zip() of equal-length tuples whose body returns on the '
@@ -97,16 +98,18 @@ def _operators(ctx, methods):
 # --------------------------------------------------------------------------------------
 
 
-def _is_zero_pad(value, local, alias, maxlen_names):
-    """value pads `local` (alias of X.nums) with zeros up to the max length?"""
+def _is_zero_pad(value, local, alias, maxlen_names, measured=None):
+    """value pads `local` (alias of X.nums) with zeros up to the max length?  (`measured`: the name whose length is
+    subtracted, `local` itself in the correct form)"""
     t = norm(value)
+    measured = measured or local
     for ml in maxlen_names:
         forms = [
-            'tuple([0 for %%s in range(len(%s), %s)])' % (local, ml),
-            'tuple((0 for %%s in range(len(%s), %s)))' % (local, ml),
-            '(0,) * (%s - len(%s))' % (ml, local),
-            'tuple([0] * (%s - len(%s)))' % (ml, local),
-            '[0] * (%s - len(%s))' % (ml, local),
+            'tuple([0 for %%s in range(len(%s), %s)])' % (measured, ml),
+            'tuple((0 for %%s in range(len(%s), %s)))' % (measured, ml),
+            '(0,) * (%s - len(%s))' % (ml, measured),
+            'tuple([0] * (%s - len(%s)))' % (ml, measured),
+            '[0] * (%s - len(%s))' % (ml, measured),
         ]
         for f in forms:
             if '%s' in f:
@@ -176,9 +179,31 @@ def _cmp(ctx, methods):
                     and _is_zero_pad(st.value.right, tgt, alias, maxlen_names):
                 padded.add(alias[tgt])
                 continue
+            if isinstance(st.value, ast.BinOp) and isinstance(st.value.op, ast.Add) \
+                    and norm(st.value.left) == tgt and alias.get(tgt, '').endswith('.nums'):
+                wrong = [n for n, a in alias.items() if a.endswith('.nums') and n != tgt and '.' not in n
+                         and _is_zero_pad(st.value.right, tgt, alias, maxlen_names, measured=n)]
+                if wrong:
+                    ctx.violation('C18.D2', '%s::Version._cmp' % F, t,
+                                  "Version('2.0.1') == Version('2.0') is True while Version('2.0') < Version('2.0.1') is True too "
+                                  '(or the reverse): the shorter operand is not padded, zip() drops the extra groups of the longer one',
+                                  '`%s` is padded by the length of `%s`, not by its own: when it is the shorter one it stays short'
+                                  % (tgt, wrong[0]), file=F, line=st.lineno, engine='E7')
+                    padded.add(alias[tgt])
+                    continue
         if isinstance(st, ast.AugAssign) and isinstance(st.op, ast.Add) and isinstance(st.target, ast.Name):
             tgt = st.target.id
             if alias.get(tgt, '').endswith('.nums') and _is_zero_pad(st.value, tgt, alias, maxlen_names):
+                padded.add(alias[tgt])
+                continue
+            wrong = [n for n, a in alias.items() if a.endswith('.nums') and n != tgt and '.' not in n
+                     and alias.get(tgt, '').endswith('.nums') and _is_zero_pad(st.value, tgt, alias, maxlen_names, measured=n)]
+            if wrong:
+                ctx.violation('C18.D2', '%s::Version._cmp' % F, t,
+                              "Version('2.0.1') == Version('2.0') is True while Version('2.0') < Version('2.0.1') is True too "
+                              '(or the reverse): the shorter operand is not padded, zip() drops the extra groups of the longer one',
+                              '`%s` is padded by the length of `%s`, not by its own: when it is the shorter one it stays short'
+                              % (tgt, wrong[0]), file=F, line=st.lineno, engine='E7')
                 padded.add(alias[tgt])
                 continue
             ctx.error('C18.D2', '_cmp: unrecognised update %r' % t)
